@@ -14,30 +14,31 @@ import (
 
 // DecEval is the summary of evaluating the memory decoder on one address class.
 type DecEval struct {
-	Lo, Hi    int
-	Write     bool
-	Result    ai.Value
-	Post      *ai.State
-	Callees   []*ssa.Function // repository functions entered, in order (depth-first)
-	Direct    []*ssa.Function // direct callees of the decoder function
-	Stores    map[string]ai.Value
-	StoreObjs map[int]bool // objects stored into
-	StoreAt   map[string]ssa.Instruction
-	Weak      map[string]bool
-	Loads     map[string]bool
-	Externs   []string
-	ExternArg map[string][]ai.Value
-	Panics    []ssa.Instruction
+	Lo, Hi     int
+	Write      bool
+	Result     ai.Value
+	Post       *ai.State
+	Callees    []*ssa.Function // repository functions entered, in order (depth-first)
+	Direct     []*ssa.Function // direct callees of the decoder function
+	Stores     map[string]ai.Value
+	StoreObjs  map[int]bool // objects stored into
+	StoreAt    map[string]ssa.Instruction
+	Weak       map[string]bool
+	Loads      map[string]bool
+	Externs    []string
+	ExternArg  map[string][]ai.Value
+	Panics     []ssa.Instruction
 	HostPanics []ssa.Instruction
-	Exits     []ssa.Instruction
-	Undecided []string
-	Index     []indexOb
-	Divs      []divOb
-	Derefs    []derefOb
-	AddrSym   ai.Sym
-	ValSym    ai.Sym
-	PathConds int
-	Elems     []elemAcc // element address computations (array label, index)
+	Exits      []ssa.Instruction
+	Undecided  []string
+	Index      []indexOb
+	Divs       []divOb
+	Derefs     []derefOb
+	AddrSym    ai.Sym
+	ValSym     ai.Sym
+	PathConds  int
+	Elems      []elemAcc // element address computations (array label, index)
+	Sends      []sendOb
 }
 
 type elemAcc struct {
@@ -47,6 +48,13 @@ type elemAcc struct {
 	At    ssa.Instruction
 	Obj   *ai.Object
 	Path  string
+}
+
+type sendOb struct {
+	At       ssa.Instruction
+	Ch       ai.Value
+	V        ai.Value
+	PathDeps ai.Deps
 }
 
 type indexOb struct {
@@ -309,8 +317,10 @@ func (c *Ctx) observeHooks(ev *DecEval) ai.Hooks {
 			}
 			ev.Panics = append(ev.Panics, at)
 		},
-		Exit:      func(_ *ai.State, at ssa.Instruction, _ string) { ev.Exits = append(ev.Exits, at) },
-		Undecided: func(_ *ai.State, at ssa.Instruction, what string) { ev.Undecided = append(ev.Undecided, what+" @ "+c.pos(at)) },
+		Exit: func(_ *ai.State, at ssa.Instruction, _ string) { ev.Exits = append(ev.Exits, at) },
+		Undecided: func(_ *ai.State, at ssa.Instruction, what string) {
+			ev.Undecided = append(ev.Undecided, what+" @ "+c.pos(at))
+		},
 		Index: func(_ *ai.State, at ssa.Instruction, idx, ln *ai.Int, proven bool) {
 			ev.Index = append(ev.Index, indexOb{at, idx, ln, proven})
 		},
@@ -323,6 +333,9 @@ func (c *Ctx) observeHooks(ev *DecEval) ai.Hooks {
 			}
 		},
 		Branch: func(*ai.State, *ssa.If, *ai.Bool) { ev.PathConds++ },
+		Send: func(st *ai.State, at ssa.Instruction, ch, v ai.Value) {
+			ev.Sends = append(ev.Sends, sendOb{At: at, Ch: ch, V: v, PathDeps: st.PathDeps})
+		},
 		Elem: func(_ *ai.State, at ssa.Instruction, o *ai.Object, path string, idx *ai.Int, n int64) {
 			if o.ID <= c.W.NObjInit {
 				ev.Elems = append(ev.Elems, elemAcc{Array: c.cellLabel(ai.CellKey{Obj: o.ID, Path: ai.NormPath(path)}), Idx: idx, Len: n, At: at, Obj: o, Path: path})
